@@ -182,6 +182,8 @@ type Chain struct {
 	divergences  []string
 	Absent       map[common.ValidatorIndex]bool
 	SlotSteps    []HonestSlots
+	justified    map[common.Epoch]bool
+	modeOf       map[common.Epoch]string
 	SpareShare   int  // percent of the genesis validators that operations must leave healthy (default 40)
 	VoteAlways   bool // proposers always vote for the eth1 candidate
 }
